@@ -21,6 +21,10 @@ fn hex(v: &Value) -> Vec<u8> {
         .collect()
 }
 
+pub fn to_hex(b: &[u8]) -> String {
+    b.iter().map(|x| format!("{:02x}", x)).collect()
+}
+
 fn main() {
     let path = std::env::args().nth(1).expect("case file");
     let txt = std::fs::read_to_string(&path).expect("read case file");
